@@ -37,14 +37,22 @@ def joinDot : Bytes → Bytes
     directory (which drops a leading slash), or — at the top level — with the argument as it stands -/
 def sameAs (l : Line) (p : Bytes) : Bool := l.pat == joinDot p || l.pat == p
 
+/-- a known line spells the argument exactly as given -/
+def exact (ls : List Line) (p : Bytes) : Bool := ls.any fun l => known l && l.pat == p
+
+/-- the known lines this call is about: those that spell the pattern exactly, and only when there is none
+    those that merely cover it (`x.bin` for `/x.bin`) — D77 -/
+def about (ls : List Line) (p : Bytes) (l : Line) : Bool :=
+  known l && (if exact ls p then l.pat == p else sameAs l p)
+
 /-- "already supported": a known line for this pattern that assigns filter=lfs and whose lockable
     state needs no change -/
 def already (ls : List Line) (p : Bytes) (f : Flag) : Bool :=
-  ls.any fun l => known l && sameAs l p && l.lfs && flagOK f l
+  ls.any fun l => about ls p l && l.lfs && flagOK f l
 
 /-- without --not-lockable, a lockable line for the pattern keeps the rewritten line lockable -/
 def keepLock (ls : List Line) (p : Bytes) (f : Flag) : Bool :=
-  f != .unlock && ls.any fun l => known l && sameAs l p && l.lockable
+  f != .unlock && ls.any fun l => about ls p l && l.lockable
 
 /-- the line `git lfs track` writes -/
 def newLine (p : Bytes) (lockable : Bool) : Line := ⟨p, true, true, lockable, 0⟩
@@ -147,6 +155,21 @@ theorem track_others (ls : List Line) (p q : Bytes) (f : Flag) (hq : (q == p) = 
 theorem sameAs_iff (l : Line) (p : Bytes) : sameAs l p = true ↔ (l.pat = joinDot p ∨ l.pat = p) := by
   simp [sameAs]
 
+theorem about_same (ls : List Line) (p : Bytes) (l : Line) (h : about ls p l = true) :
+    l.pat = joinDot p ∨ l.pat = p := by
+  simp only [about, Bool.and_eq_true] at h
+  obtain ⟨_, h2⟩ := h
+  split at h2
+  · exact Or.inr (beq_iff_eq.mp h2)
+  · exact (sameAs_iff l p).mp h2
+
+theorem about_self (ls : List Line) (p : Bytes) (l : Line) (hl : l ∈ ls) (hk : known l = true) (hp : l.pat = p) :
+    about ls p l = true := by
+  have hex : exact ls p = true := by
+    simp only [exact, List.any_eq_true, Bool.and_eq_true]
+    exact ⟨l, hl, hk, by simp [hp]⟩
+  simp [about, hk, hex, hp]
+
 /-- afterwards a line for the pattern — or for its unrooted spelling, which covers it — assigns filter=lfs -/
 theorem track_tracked (ls : List Line) (p : Bytes) (f : Flag) :
     ∃ l ∈ track ls p f, (l.pat = joinDot p ∨ l.pat = p) ∧ l.lfs = true := by
@@ -154,8 +177,8 @@ theorem track_tracked (ls : List Line) (p : Bytes) (f : Flag) :
   split
   · rename_i h
     simp only [already, List.any_eq_true, Bool.and_eq_true] at h
-    obtain ⟨l, hl, ⟨⟨⟨_, hp⟩, hlfs⟩, _⟩⟩ := h
-    exact ⟨l, hl, (sameAs_iff l p).mp hp, hlfs⟩
+    obtain ⟨l, hl, ⟨⟨hab, hlfs⟩, _⟩⟩ := h
+    exact ⟨l, hl, about_same ls p l hab, hlfs⟩
   · simp only
     split
     · rename_i r hr
@@ -169,8 +192,8 @@ theorem track_lock (ls : List Line) (p : Bytes) :
   split
   · rename_i h
     simp only [already, List.any_eq_true, Bool.and_eq_true, flagOK] at h
-    obtain ⟨l, hl, ⟨⟨⟨_, hp⟩, hlfs⟩, hk⟩⟩ := h
-    exact ⟨l, hl, (sameAs_iff l p).mp hp, hlfs, hk⟩
+    obtain ⟨l, hl, ⟨⟨hab, hlfs⟩, hk⟩⟩ := h
+    exact ⟨l, hl, about_same ls p l hab, hlfs, hk⟩
   · simp only
     split
     · rename_i r hr
@@ -187,13 +210,34 @@ theorem track_none_keeps_lockable (ls : List Line) (p : Bytes)
   · exact ⟨l0, hl0, hp0, hlk0⟩
   · have hkeep : keepLock ls p .none = true := by
       simp only [keepLock, List.any_eq_true, Bool.and_eq_true]
-      refine ⟨by decide, l0, hl0, ⟨hk0, ?_⟩, hlk0⟩
-      simp [sameAs, hp0]
+      exact ⟨by decide, l0, hl0, about_self ls p l0 hl0 hk0 hp0, hlk0⟩
     simp only
     split
     · rename_i r hr
       exact ⟨_, replaceFirst_mem p _ ls r hr, rfl, by simp [newLine, hkeep]⟩
     · exact ⟨newLine p (Flag.none == .lock || keepLock ls p .none), by simp, rfl, by simp [newLine, hkeep]⟩
+
+/-- `--not-lockable` for a pattern that a known line spells EXACTLY takes effect on a line with that very spelling,
+    whatever other lines cover the same files (D77: `x.bin`, not lockable, beside `/x.bin lockable` made
+    `track --not-lockable /x.bin` answer "already supported") -/
+theorem track_unlock_exact (ls : List Line) (p : Bytes) (h : ∃ l ∈ ls, known l = true ∧ l.pat = p) :
+    ∃ l ∈ track ls p .unlock, l.pat = p ∧ l.lfs = true ∧ l.lockable = false := by
+  obtain ⟨l0, hl0, hk0, hp0⟩ := h
+  have hex : exact ls p = true := by
+    simp only [exact, List.any_eq_true, Bool.and_eq_true]
+    exact ⟨l0, hl0, hk0, by simp [hp0]⟩
+  unfold track
+  split
+  · rename_i ha
+    simp only [already, List.any_eq_true, Bool.and_eq_true, flagOK] at ha
+    obtain ⟨l, hl, ⟨⟨hab, hlfs⟩, hk⟩⟩ := ha
+    simp only [about, hex, if_true, Bool.and_eq_true] at hab
+    exact ⟨l, hl, beq_iff_eq.mp hab.2, hlfs, by simpa using hk⟩
+  · simp only
+    split
+    · rename_i r hr
+      exact ⟨_, replaceFirst_mem p _ ls r hr, rfl, rfl, by simp [newLine, keepLock]⟩
+    · exact ⟨newLine p (Flag.unlock == .lock || keepLock ls p .unlock), by simp, rfl, rfl, by simp [newLine, keepLock]⟩
 
 /-- the line that `track` writes satisfies "already supported" for the same flag -/
 theorem already_after (ls : List Line) (p : Bytes) (f : Flag) : already (track ls p f) p f = true := by
@@ -208,16 +252,15 @@ theorem already_after (ls : List Line) (p : Bytes) (f : Flag) : already (track l
       | lock => simp [flagOK, newLine]
       | none => simp [flagOK]
       | unlock => simp [flagOK, newLine, keepLock]
-    have hgood : (known (newLine p (f == .lock || keepLock ls p f)) && sameAs (newLine p (f == .lock || keepLock ls p f)) p &&
-        (newLine p (f == .lock || keepLock ls p f)).lfs && flagOK f (newLine p (f == .lock || keepLock ls p f))) = true := by
-      rw [hflag]
-      simp [known, newLine, sameAs]
+    have hk : known (newLine p (f == .lock || keepLock ls p f)) = true := by simp [known, newLine]
     split
     · rename_i r hr
-      simp only [already, List.any_eq_true]
-      exact ⟨_, replaceFirst_mem p _ ls r hr, hgood⟩
-    · simp only [already, List.any_append, List.any_cons, List.any_nil, Bool.or_false]
-      simp [hgood]
+      have hm := replaceFirst_mem p _ ls r hr
+      simp only [already, List.any_eq_true, Bool.and_eq_true]
+      exact ⟨_, hm, ⟨about_self r p _ hm hk rfl, rfl⟩, hflag⟩
+    · have hm : newLine p (f == .lock || keepLock ls p f) ∈ ls ++ [newLine p (f == .lock || keepLock ls p f)] := by simp
+      simp only [already, List.any_eq_true, Bool.and_eq_true]
+      exact ⟨_, hm, ⟨about_self _ p _ hm hk rfl, rfl⟩, hflag⟩
 
 /-- running the same command again changes nothing -/
 theorem track_idempotent (ls : List Line) (p : Bytes) (f : Flag) : track (track ls p f) p f = track ls p f := by
